@@ -1106,10 +1106,40 @@ static void record_case(Builder& B, bool oas, const std::string& gid, const std:
     lib.cell_array.append(&cell);
     rp.simple_path = true;
     cell.robustpath_array.append(&rp);
+    // GDSII has no repetitions: every element is written once per offset (elements outer, offsets inner), each copy a complete
+    // PATH record of its own (layer, type, width, extensions, points); a share of the cases carry one
+    std::vector<V> offs{V{0, 0}};
+    {
+        Rng rg(0x5eed ^ std::hash<std::string>()(gid));
+        if (!oas && rg.chance(45)) {
+            if (rg.coin()) {
+                rp.repetition.type = RepetitionType::Rectangular;
+                rp.repetition.columns = 1 + rg.below(3);
+                rp.repetition.rows = 1 + rg.below(2);
+                rp.repetition.spacing = Vec2{40.0 + (double)rg.below(20), -35.0 - (double)rg.below(20)};
+                offs.clear();
+                for (uint64_t i = 0; i < rp.repetition.columns; i++)
+                    for (uint64_t j = 0; j < rp.repetition.rows; j++)
+                        offs.push_back(V{(ld)i * rp.repetition.spacing.x, (ld)j * rp.repetition.spacing.y});
+            } else {
+                rp.repetition.type = RepetitionType::Explicit;
+                rp.repetition.offsets = {};
+                int k = 1 + (int)rg.below(3);
+                for (int i = 0; i < k; i++) {
+                    Vec2 o = {50.0 * (i + 1) + (double)rg.below(9), -45.0 * (i + 1) - (double)rg.below(9)};
+                    rp.repetition.offsets.append(o);
+                    offs.push_back(V{o.x, o.y});
+                }
+            }
+        }
+    }
     ErrorCode werr = oas ? lib.write_oas(fname, 0, 0, 0) : lib.write_gds(fname, 0, NULL);
+    rp.repetition.clear();
     rp.simple_path = false;
     cell.robustpath_array.count = 0;
     lib.cell_array.count = 0;
+    const uint64_t copies = offs.size();
+    if (copies > 1) em.T("gds-record-with-repetition");
     em.K(oas ? "oas" : "gds", gid);
     // IntersectionNotFound is advisory: the junction search between two sections stopped a few tolerances short (the same code
     // is tolerated from to_polygons); the record is written all the same and is judged below like any other
@@ -1125,14 +1155,18 @@ static void record_case(Builder& B, bool oas, const std::string& gid, const std:
     unlink(fname);
     std::string fail;
     char buf[300];
-    if (back.cell_array.count != 1 || back.cell_array[0]->flexpath_array.count != B.n) {
-        fail = "FAIL robustpath-record-count the file does not hold one PATH per element";
+    if (back.cell_array.count != 1 || back.cell_array[0]->flexpath_array.count != B.n * copies) {
+        fail = "FAIL robustpath-record-count the file does not hold one PATH per element and repetition offset";
     } else {
-        for (uint64_t e = 0; e < B.n && fail.empty(); e++) {
-            FlexPath* fp = back.cell_array[0]->flexpath_array[e];
+        for (uint64_t ec = 0; ec < B.n * copies && fail.empty(); ec++) {
+            const uint64_t e = ec / copies, cpy = ec % copies;
+            FlexPath* fp = back.cell_array[0]->flexpath_array[ec];
             CentreCurve C = centre_curve(rp, rp.elements[e], B.corner, (ld)B.tol / 8);
             std::vector<V> got;
-            for (uint64_t i = 0; i < fp->spine.point_array.count; i++) got.push_back(tov(fp->spine.point_array[i]));
+            for (uint64_t i = 0; i < fp->spine.point_array.count; i++) {
+                V q = tov(fp->spine.point_array[i]);
+                got.push_back(V{q.x - offs[cpy].x, q.y - offs[cpy].y});
+            }
             ld dev = poly_dev(got, C.pts);
             // the intersection search at a junction stops once the two curve points are within tol of each other; at a
             // shallow kink that point is a few tol away from the crossing itself; 3e-3 = database grid of the file
@@ -1161,6 +1195,16 @@ static void record_case(Builder& B, bool oas, const std::string& gid, const std:
             }
             EndType want = B.el[e].end == EndType::Smooth ? EndType::Round : B.el[e].end;
             EndType have = fp->elements[0].end_type;
+            if (want == EndType::Extended && !oas) {
+                // BGNEXTN / ENDEXTN of every copy: the element's extensions on the database grid
+                Vec2 xo = rp.elements[e].end_extensions, xb = fp->elements[0].end_extensions;
+                if (have != EndType::Extended || fabs(xb.u - xo.u) > 1.5e-3 || fabs(xb.v - xo.v) > 1.5e-3) {
+                    snprintf(buf, sizeof buf, "element %d copy %d: extensions (%.9g, %.9g) written, end type %s with (%.9g, %.9g) read back", (int)e, (int)cpy,
+                             xo.u, xo.v, end_type_name(have), xb.u, xb.v);
+                    fail = std::string("FAIL robustpath-record-extensions ") + buf;
+                    break;
+                }
+            }
             if (want != EndType::Extended && have != want) {
                 if (oas && want == EndType::Round && have == EndType::Flush)
                     fail = "FAIL RobustPath::to_oas:round-end-flush a round-ended path is written to OASIS with flush ends (the format has no round ends)";
